@@ -415,7 +415,7 @@ class Bada3PistonEngineModel(Bada3EngineModel):
         -------
         Union[float, NDArray] - nominal fuel flow for piston engines.
         """
-        return self.aircraft_parameters.c_f1
+        return self.aircraft_parameters.c_f1 / 60  # C_f1 is in kg/min
 
     def calculate_cruise_fuel_flow(self, thrust, v_tas) -> FloatOrNDArray:
         """
@@ -431,7 +431,7 @@ class Bada3PistonEngineModel(Bada3EngineModel):
         -------
         Union[float, NDArray] - cruise fuel flow for piston engines.
         """
-        return self.aircraft_parameters.c_f1 * self.aircraft_parameters.c_fcr
+        return self.aircraft_parameters.c_f1 * self.aircraft_parameters.c_fcr / 60
 
     def calculate_max_climb_thrust_isa(
         self, altitude: FloatOrNDArray, v_tas: FloatOrNDArray
